@@ -56,6 +56,10 @@ package sql
 // user-metadata rows it deletes are those of the null version it replaces.
 //@ func (*sqlMetadataStore).CompleteMultipartUpload
 //@ mode effects
+//@ effect[C04:complete-judges-the-supplied-checksums-first] every sms.objectRepository.$M(__) if !strings.HasPrefix($M, "Find")
+//@     needs before metadatastore.ValidateChecksums($in, _) -> ($ve) where $ve == nil && $in == checksumInput
+//@ effect[C04:complete-judges-against-the-checksums-of-the-parts] every metadatastore.ValidateChecksums(_, $calc)
+//@     needs before checksumutils.CalculateMultipartChecksums($ps, $t) -> ($cv, $e) where $e == nil && same($ps, parts) && $t == checksumType && $calc.ETag == $cv.ETag
 //@ trust nonnil object.Repository.UpdateObjectByIdAndOptimisticLockVersion
 //@ trust nonnil object.Repository.DeleteObjectByIdAndOptimisticLockVersion
 //@ effect[C11:completed-row-is-the-pending-row] every sms.objectRepository.SaveObject(_, _, $e) if $e != nil && $e.IsLatest
